@@ -122,7 +122,13 @@ func Explore(r *core.Run, o Options) {
 		}
 	}
 	// apply runs the real composer on a list of symbols and judges it against the model.
+	// (mutation mode works on shared values; once the code under test has written into one of them, what follows is no longer the
+	// planned exploration - and may not even end, e.g. when a patch value grows with every call - so it stops at the first such verdict)
+	corrupted := false
 	apply := func(n *node, sis []int) (*node, *core.Fail) {
+		if o.Mutation && corrupted {
+			return nil, nil
+		}
 		var ps []patch.Patch
 		var ms []any
 		for _, si := range sis {
@@ -307,6 +313,10 @@ func Explore(r *core.Run, o Options) {
 		hist := strings.Join(pathNames(n.path), ",")
 		call := strings.Join(pathNamesOnly(alphabet, sis), ",")
 		r.Report(hist+"|"+call, *f)
+		if o.Mutation && !corrupted && (strings.HasPrefix(f.Key, "mutated-") || strings.HasPrefix(f.Key, "result-modified")) {
+			corrupted = true
+			r.Cap("the code under test modified a shared input value: the exploration stopped at the first such call (violation reported)")
+		}
 	}
 	depthDone := 0
 	for depth := 1; depth <= o.Depth && len(frontier) > 0; depth++ {
@@ -381,8 +391,12 @@ func Explore(r *core.Run, o Options) {
 		starts = append(starts, levels[d]...)
 	}
 	var pairs int64
-	par(len(starts), func(i int) {
-		n := starts[i]
+	foldStarts := starts
+	if o.Mutation {
+		foldStarts = nil // the law is C10's subject; C12 runs on shared values and judges them through apply only
+	}
+	par(len(foldStarts), func(i int) {
+		n := foldStarts[i]
 		// this worker's own copies of the start document and of every patch value (see apply)
 		doc := n.doc
 		own := make([]patch.Patch, len(alphabet))
@@ -435,6 +449,48 @@ func Explore(r *core.Run, o Options) {
 			if n.snap != "" && snapshot(n.doc) != n.snap {
 				id := strings.Join(pathNames(n.path), ",")
 				r.Report(id, core.Fail{Key: "earlier-document-changed/" + id, What: "a document produced earlier was modified by later applications", Detail: map[string]any{"history": pathNames(n.path)}})
+			}
+		}
+		// lists with runs of adjacent patches of one action (a composer that joins or batches neighbours must not do it in the
+		// caller's values): every ordered pair and triple of four JSON patches, alone, behind a typed patch and before a failing one,
+		// and pairs of add-key / add-service / add-aka patches
+		{
+			var js, typed []int
+			for _, nm := range []string{"json/add-m", "json/add-a", "json/two-ops", "json/null-values"} {
+				if i, ok := names[nm]; ok {
+					js = append(js, i)
+				}
+			}
+			for _, nm := range []string{"add-key/k1/v0", "add-key/k2/v0", "add-service/s1/v0", "add-service/s2/v0", "add-aka/[0]", "add-aka/[1]"} {
+				if i, ok := names[nm]; ok {
+					typed = append(typed, i)
+				}
+			}
+			if len(js) < 3 || len(typed) < 4 {
+				core.Engine("c10: symbols for the adjacent-patch lists are missing (%d json, %d typed)", len(js), len(typed))
+			}
+			var lists [][]int
+			for _, a := range js {
+				for _, b := range js {
+					lists = append(lists, []int{a, b}, []int{typed[0], a, b}, []int{a, b, names["json/fails-second"]})
+					for _, c := range js {
+						lists = append(lists, []int{a, b, c})
+					}
+				}
+			}
+			for _, a := range typed {
+				for _, b := range typed {
+					lists = append(lists, []int{a, b})
+				}
+			}
+			for _, n := range starts {
+				for _, l := range lists {
+					r.Eval(1)
+					if _, f := apply(n, l); f != nil {
+						report(n, l, f)
+					}
+					r.Class("adjacent-patches")
+				}
 			}
 		}
 		// lists of length 3 failing at the k-th patch
